@@ -65,6 +65,7 @@ def jobs(tier):
         out.append(("v2.single.P16384.%s.ref-nolength" % cpath, "job_recheck",
                     dict(prop="C05", version=2, shape="single", P=16384, K=3, dmg=["intact"], cpath=cpath, source="ref",
                          v2_single_length=False)))
+    out.extend(rk.matrix_rows(tier, "C05"))
     for cpath in ("root", "parent"):     # a v1 file list that is not grouped by directory (as other tools write them)
         out.append(("v1.ungrouped3.P16384.%s.ref" % cpath, "job_recheck",
                     dict(prop="C05", version=1, shape="ungrouped3", P=16384, K=1, dmg=["intact"] * 3, cpath=cpath, source="ref")))
